@@ -322,3 +322,126 @@ Section Repair.
     - rewrite E. exists buf', jn', tags'. split; [reflexivity | exact R].
   Qed.
 End Repair.
+
+(* ---------------------------------------------------------------------------------------------------------- *)
+(* repair on a stripe whose blocks are all BLK                                                                  *)
+(* ---------------------------------------------------------------------------------------------------------- *)
+Lemma set_buf_length b i x : length (set_buf b i x) = length b.
+Proof. apply mapi_length. Qed.
+Lemma vnth_set_buf b i x k : k < length b -> vnth (set_buf b i x) k = if Nat.eqb k i then x else vnth b k.
+Proof. intro H. unfold set_buf. rewrite vnth_mapi by exact H. reflexivity. Qed.
+
+Section RepairAll.
+  Variable hashf : bid -> N -> hval.
+  Variable padz : bid -> N -> bool.
+  Variable bs : N.
+  Variable nlev : nat.
+  Variable reduced : bool.
+
+  Definition full (v buf buf' : list bid) : Prop :=
+    length buf' = length buf /\ forall i, i < length buf -> vnth buf' i = vnth v i.
+
+  Definition blk_failed (failed : list fent) (buf : list bid) : Prop :=
+    forall e, In e failed -> fe_bad e = true /\ fe_ood e = false /\ fe_state e = Some SBlk /\ fe_idx e < length buf.
+
+  Definition cf_search (nosearch : bool) (fs0 : list (option fsdisk)) (failed : list fent) (v : list bid) : Prop :=
+    forall e b, In e failed -> search_fetch hashf bs nosearch fs0 e = Some b -> b = vnth v (fe_idx e).
+
+  Lemma chg_heuristic_blk pos buf e : fe_state e = Some SBlk -> chg_heuristic hashf padz bs reduced pos buf e = (e, []).
+  Proof. intro H. unfold chg_heuristic, fe_is. rewrite H. simpl. rewrite andb_false_r. reflexivity. Qed.
+
+  Theorem repair_restores pos nosearch fs0 failed rec v buf jn :
+    blk_failed failed buf ->
+    hv_ok hashf padz bs failed v -> cf_junk hashf padz bs failed -> cf_rec hashf padz bs failed rec v ->
+    cf_search nosearch fs0 failed v ->
+    agree_out (map fe_idx failed) v buf = true ->
+    length failed <= length (filter (good_level v rec) (seq 0 nlev)) ->
+    exists buf' jn' tags,
+      repair hashf padz bs nlev reduced pos nosearch fs0 failed rec buf jn = (ROk, failed, buf', jn', tags)
+      /\ full v buf buf'.
+  Proof.
+    intros Hblk Hhv Hj Hr Hs Hag Hn.
+    destruct failed as [|e0 ft] eqn:Efailed.
+    { simpl. exists buf, jn, []. split; [reflexivity|]. split; [reflexivity|].
+      intros i Hi. symmetry. rewrite agree_out_spec in Hag. apply Hag. simpl. tauto. }
+    rewrite <- Efailed in *. clear Efailed.
+    set (g := fun (acc : list fent * list bid) e =>
+                if fe_bad e then
+                  match (if fe_updated_hash e then search_fetch hashf bs nosearch fs0 e else None) with
+                  | Some b => (fst acc, set_buf (snd acc) (fe_idx e) b)
+                  | None => (fst acc ++ [e], snd acc)
+                  end
+                else acc).
+    assert (Hfold : forall l fm0 b0,
+               (forall e, In e l -> In e failed) -> (forall e, In e fm0 -> In e failed) ->
+               length b0 = length buf ->
+               agree_out (map fe_idx (fm0 ++ l)) v b0 = true ->
+               let r := fold_left g l (fm0, b0) in
+               (forall e, In e (fst r) -> In e failed) /\ length (snd r) = length buf
+               /\ agree_out (map fe_idx (fst r)) v (snd r) = true /\ length (fst r) <= length fm0 + length l).
+    { induction l as [|e t IH]; intros fm0 b0 Hl Hf0 Hlen Hag0; simpl.
+      - rewrite app_nil_r in Hag0. repeat split; auto. lia.
+      - assert (He : In e failed) by (apply Hl; left; reflexivity).
+        destruct (Hblk e He) as [Hb [Ho [Hst Hidx]]].
+        unfold g at 2. rewrite Hb. unfold fe_updated_hash. rewrite Hst. simpl.
+        destruct (search_fetch hashf bs nosearch fs0 e) as [x|] eqn:Es.
+        + assert (Ex : x = vnth v (fe_idx e)) by (apply (Hs e x He Es)). subst x.
+          edestruct (IH fm0 (set_buf b0 (fe_idx e) (vnth v (fe_idx e)))) as [A [B [C D]]].
+          * intros e' He'. apply Hl. right. exact He'.
+          * exact Hf0.
+          * rewrite set_buf_length. exact Hlen.
+          * apply agree_out_spec. intros i Hi.
+            destruct (Nat.lt_ge_cases i (length b0)) as [Hil|Hil].
+            -- rewrite vnth_set_buf by exact Hil. destruct (Nat.eqb i (fe_idx e)) eqn:Ei.
+               ++ apply Nat.eqb_eq in Ei. subst i. reflexivity.
+               ++ rewrite agree_out_spec in Hag0. apply Hag0. intro Hin. rewrite map_app in Hin. simpl in Hin.
+                  apply in_app_or in Hin. destruct Hin as [Hin|[Hin|Hin]].
+                  ** apply Hi. rewrite map_app. apply in_or_app. left. exact Hin.
+                  ** apply Nat.eqb_neq in Ei. congruence.
+                  ** apply Hi. rewrite map_app. apply in_or_app. right. exact Hin.
+            -- rewrite (vnth_out (set_buf _ _ _)) by (rewrite set_buf_length; exact Hil).
+               rewrite agree_out_spec in Hag0. rewrite <- (vnth_out b0 i Hil). apply Hag0.
+               intro Hin. rewrite map_app in Hin. simpl in Hin. apply in_app_or in Hin. destruct Hin as [Hin|[Hin|Hin]].
+               ++ apply Hi. rewrite map_app. apply in_or_app. left. exact Hin.
+               ++ subst i. rewrite Hlen in Hil. lia.
+               ++ apply Hi. rewrite map_app. apply in_or_app. right. exact Hin.
+          * repeat split; auto. simpl in D. lia.
+        + edestruct (IH (fm0 ++ [e]) b0) as [A [B [C D]]].
+          * intros e' He'. apply Hl. right. exact He'.
+          * intros e' He'. apply in_app_or in He'. destruct He' as [He'|[He'|[]]]; [auto | subst; auto].
+          * exact Hlen.
+          * rewrite <- app_assoc. exact Hag0.
+          * repeat split; auto. rewrite app_length in D. simpl in D. lia. }
+    unfold repair. destruct failed as [|e1 ft'] eqn:Efailed2; [discriminate|]. rewrite <- Efailed2 in *.
+    fold g.
+    specialize (Hfold failed [] buf (fun e H => H) (fun e H => match H with end) eq_refl Hag).
+    destruct (fold_left g failed ([], buf)) as [fm1 buf1] eqn:Ef. simpl in Hfold.
+    destruct Hfold as [Hsub [Hlen1 [Hag1 Hcnt]]].
+    destruct fm1 as [|e2 fmt] eqn:Efm1.
+    - exists buf1, jn, []. split; [reflexivity|]. split; [exact Hlen1|].
+      intros i Hi. symmetry. rewrite agree_out_spec in Hag1. apply Hag1. simpl. tauto.
+    - rewrite <- Efm1 in *.
+      assert (Hok : fm_ok fm1 buf1).
+      { constructor.
+        - rewrite Efm1. discriminate.
+        - intros e He. destruct (Hblk e (Hsub e He)) as [_ [Ho [Hst _]]]. split; [exact Ho|]. unfold fe_updated_hash. rewrite Hst. reflexivity.
+        - intros e He. rewrite Hlen1. destruct (Hblk e (Hsub e He)) as [_ [_ [_ Hi]]]. exact Hi. }
+      destruct (repair_step_good hashf padz bs nlev pos fm1 rec v buf1 jn Hok) as [buf2 [jn2 [tags2 [E R]]]].
+      + intros e He. apply Hhv. auto.
+      + intros e x He. apply Hj. auto.
+      + intros l w e El He. apply (Hr l w e El). auto.
+      + exact Hag1.
+      + etransitivity; [exact Hcnt|]. simpl. exact Hn.
+      + assert (Efm1' : match fm1 with [] => true | _ => false end = false) by (rewrite Efm1; reflexivity).
+        destruct fm1 as [|e3 fm3]; [discriminate|]. rewrite E.
+        exists buf2, jn2, (tags2 ++ flat_map snd (map (chg_heuristic hashf padz bs reduced pos buf2) failed)).
+        split.
+        * f_equal. f_equal. f_equal. f_equal.
+          rewrite map_map. rewrite <- (map_id failed) at 2. apply map_ext_in. intros e He.
+          destruct (Hblk e He) as [_ [_ [Hst _]]]. rewrite chg_heuristic_blk by exact Hst. reflexivity.
+        * destruct R as [R1 R2]. split; [congruence|]. intros i Hi.
+          rewrite R2 by (rewrite Hlen1; exact Hi).
+          destruct (memn i (map fe_idx (e3 :: fm3))) eqn:Em; [reflexivity|].
+          symmetry. rewrite agree_out_spec in Hag1. apply Hag1. apply memn_false. exact Em.
+  Qed.
+End RepairAll.
